@@ -281,8 +281,8 @@ def run():
                        'filters are stateless predicates of the message (function, level, category, regexp filters); a duplicate filter is outside the model',
                        'a file sink on a device that keeps nothing (/dev/full) has no file to check; it must not keep other sinks from being flushed',
                        'process death, not power loss: data handed to the kernel by write() counts as in the file',
-                       'a record written while the device rejects the write (transient fault, z messages) may be lost; every record '
-                       'logged after the fault has cleared must be on disk (the comparison counts the faulted record as present)',
+                       'transient device faults (z messages: file size limit 0 for one message, after a flush) are in the model as a reject '
+                       'oracle: the rejected record is lost iff it bypasses QFile\'s buffer (> 16 KiB), every other record must be on disk',
                        'rotation (64 KiB scenarios) conserves records across the rotated files (C05); their concatenation is compared']
     chk.proof(vlib.proof_leg('Properties_C11', ['fatal']))
     model = vlib.build_model('fatal')
@@ -301,7 +301,10 @@ def run():
     exp_of = dict(zip(fat, exp_all))
     for i in fat:
         res[i]['files_raw'] = res[i]['files']
-        res[i]['files'] = forgive_faults(res[i]['files'], exp_of.get(i), fault_ids(scs[i]))
+        # the model now predicts the fate of a record written during a device fault (lost iff it bypasses the buffer);
+        # the one-line front-end adds a time stamp of unknown length, so only there the record is still forgiven
+        if scs[i]['tree'] in ('ONE', 'ONER'):
+            res[i]['files'] = forgive_faults(res[i]['files'], exp_of.get(i), fault_ids(scs[i]))
     _, verdicts, _ = vlib.run_lines(model, ['%s | %s' % (model_line(scs[i]), res[i]['files']) for i in fat], ['oracle'])
     verdict = dict(zip(fat, verdicts))
     falsified, dis, wrong_death = [], [], []
@@ -319,7 +322,8 @@ def run():
     def run_canon(sc):
         r = run_impl(impl, sc)
         _, ex, _ = vlib.run_lines(model, [model_line(sc)], ['expected'])
-        r['files'] = forgive_faults(r['files'], ex[0] if ex else None, fault_ids(sc))
+        if sc['tree'] in ('ONE', 'ONER'):
+            r['files'] = forgive_faults(r['files'], ex[0] if ex else None, fault_ids(sc))
         return r, (ex[0] if ex else '?')
 
     def fails(sc):
